@@ -359,7 +359,7 @@ PROPS["C06"] = dict(
     level_text=("Exploration: the real cache is driven through thousands of seeded histories and compared after each step with the clauses of the "
                 "property (presence, freshest record, provenance of the record, monotonicity, TTL, negative caching)."),
     level_note="Trusted: the scripted sources; wall-clock intervals taken around each call (only certain expiry outcomes are asserted).",
-    assumptions=["records without LastAdvertisementTime are not generated"],
+    assumptions=["the order among records that all lack LastAdvertisementTime is not defined and not checked"],
 )
 
 PROPS["C07"] = dict(
